@@ -1,13 +1,276 @@
+"""C03 - signatures depend only on program content, never on the environment.
+
+(A) the signature table of the program family is computed in several real interpreters that differ in hash seed,
+working directory, on-disk location of the generated packages, store kind, debugging option and graph export,
+and must be identical; (B) inside one interpreter the signatures of (program, variant, entry) must be the same
+after every history of edits / restarts / earlier evaluations; (C) a pinned corpus of committed sources must
+reproduce its committed signatures byte for byte; (D) the same text as a __main__ script and re-defined in a
+later IPython cell.
+"""
+import importlib
+import json
+import os
+import shutil
+import subprocess
+import sys
+import tempfile
+
+from .. import core, pool
+from ..core import Result, Violation
 from ..progmc import driver
 
 P = "C03"
+GOLD = os.path.join(core.VERIF, "golden")
+
+
+def environments(tier, seed):
+    base = {"level": tier, "hashseed": 0, "cwd": None, "pkgroot": None, "store": "memory", "debug": None, "export": False}
+    envs = [("base", dict(base))]
+    s2 = 1000 + seed % 991
+    envs.append(("hashseed=1", dict(base, hashseed=1)))
+    envs.append((f"hashseed={s2}", dict(base, hashseed=s2)))
+    envs.append(("cwd=/+pkgdir=deep", dict(base, cwd="/", pkgroot="DEEP")))
+    envs.append(("store=local", dict(base, store="local")))
+    envs.append(("store=local_cache2+debug_off", dict(base, store="local_cache2", debug=False)))
+    envs.append(("export+debug_on_per_call", dict(base, export=True, debug_call=True)))
+    if tier != "quick":
+        envs.append(("all_different", dict(base, hashseed=s2 + 1, cwd="/", pkgroot="DEEP", store="local_cache2", debug=False, export=True)))
+        envs.append(("store=local_cache100+hashseed=2", dict(base, store="local_cache100", hashseed=2)))
+    return envs
+
+
+def _table_proc(item):
+    name, job = item
+    job = dict(job)
+    tmp = None
+    if job.get("pkgroot") == "DEEP":
+        tmp = tempfile.mkdtemp(prefix="ddsvt_deep_")
+        job["pkgroot"] = os.path.join(tmp, "x y", "z.w", "pkgs")
+    env = dict(os.environ, PYTHONHASHSEED=str(job.pop("hashseed")), PYTHONPATH=core.VERIF, PYTHONDONTWRITEBYTECODE="1")
+    try:
+        p = subprocess.run([core.PY, "-m", "vt.progmc.sigtable", json.dumps(job)], capture_output=True, text=True, env=env, cwd=core.VERIF, timeout=3000)
+    finally:
+        if tmp:
+            shutil.rmtree(tmp, ignore_errors=True)
+    for line in p.stdout.splitlines():
+        if line.startswith("TABLE "):
+            return name, json.loads(line[6:])
+    raise core.HarnessError(f"signature table in environment {name} failed: {p.stderr[-1500:]}")
+
+
+def _tables_job(items):
+    return [_table_proc(it) for it in items]
+
+
+# ------------------------------------------------------------------ (C) pinned corpus
+
+def corpus_signatures(only=None):
+    core.ensure_repo_dds()
+    import dds
+    import dds._api as api
+    from ..stores import CaptureStore
+    corpus = os.path.join(GOLD, "corpus")
+    index = json.load(open(os.path.join(GOLD, "index.json")))
+    if corpus not in sys.path:
+        sys.path.insert(0, corpus)
+    sys.dont_write_bytecode = True
+    ns = {"OrderedDict": __import__("collections").OrderedDict, "PurePosixPath": __import__("pathlib").PurePosixPath}
+    out = {}
+    for pkg, info in sorted(index.items()):
+        if only and pkg not in only:
+            continue
+        dds.accept_module(pkg)
+        res = {}
+        for name, e in sorted(info["entries"].items()):
+            st = CaptureStore()
+            dds.set_store(st)
+            try:
+                m = importlib.import_module(e["module"])
+                fn = getattr(m, e["fn"])
+                args = [eval(a, ns) for a in e.get("args", [])]
+                kwargs = {k: eval(a, ns) for k, a in e.get("kwargs", [])}
+                if e["kind"] == "eval":
+                    dds.eval(fn, *args, **kwargs)
+                elif e["kind"] == "keep":
+                    dds.keep(e["path"], fn, *args, **kwargs)
+                else:
+                    fn(*args, **kwargs)
+                sig = {}
+                for d in st.syncs:
+                    sig.update(d)
+                res[name] = sig
+            except BaseException as ex:  # noqa
+                res[name] = {"__status__": core.exc_tag(ex)}
+                api._eval_ctx = None
+        out[pkg] = res
+    api._store_var = None
+    return out
+
+
+def _corpus_job(items):
+    return [corpus_signatures(only=set(items))]
+
+
+def check_corpus(only=None):
+    pinned = json.load(open(os.path.join(GOLD, "sigs.json")))
+    index = json.load(open(os.path.join(GOLD, "index.json")))
+    if only:
+        now = corpus_signatures(only=only)
+        pinned = {k: v for k, v in pinned.items() if k in only}
+    else:
+        now = {}
+        for part in pool.pmap(_corpus_job, sorted(pinned), chunk=40):
+            now.update(part)
+    probs = []
+    for pkg in sorted(pinned):
+        if now.get(pkg) != pinned[pkg]:
+            ents = [e for e in pinned[pkg] if now.get(pkg, {}).get(e) != pinned[pkg][e]]
+            e = ents[0]
+            a, b = pinned[pkg][e], now.get(pkg, {}).get(e)
+            paths = sorted(p for p in set(a) | set(b or {}) if a.get(p) != (b or {}).get(p))
+            probs.append((f"C03|pinned_corpus_drift", f"corpus package {pkg} ({index[pkg]['program']}) entry {e}: path {paths[0]} has signature "
+                          f"{(b or {}).get(paths[0])}, pinned {a.get(paths[0])} ({len(ents)} entr{'y' if len(ents) == 1 else 'ies'} differ)",
+                          {"mode": "corpus", "pkg": pkg}))
+    return probs, len(pinned), sum(len(v) for v in pinned.values())
+
+
+# ------------------------------------------------------------------ (D) __main__ script and IPython cells
+
+SCRIPT = '''import sys, json
+sys.path.insert(0, {repo!r})
+import logging
+logging.disable(logging.CRITICAL)
+import dds
+from dds.store import Store, MemoryStore
+X = 5
+def helper():
+    return X + 1
+def leaf():
+    return "leaf%d" % helper()
+def double():
+    return X * 2
+def pipeline():
+    a = dds.keep("/s/leaf", leaf)
+    b = dds.keep("/s/double", double)
+    return (a, b)
+class Cap(MemoryStore):
+    seen = {{}}
+    def sync_paths(self, paths):
+        Cap.seen.update(dict((str(k), str(v)) for k, v in paths.items()))
+        return super().sync_paths(paths)
+'''
+SCRIPT_MAIN = SCRIPT + '''dds.set_store(Cap())
+dds.eval(pipeline)
+print("SIGS " + json.dumps(Cap.seen, sort_keys=True))
+'''
+
+
+def check_placements():
+    """the same text as a package module, as a __main__ script and in IPython cells (defined, then re-defined)"""
+    probs = []
+    root = tempfile.mkdtemp(prefix="ddsvt_c03p_")
+    env = dict(os.environ, PYTHONDONTWRITEBYTECODE="1", PYTHONHASHSEED="3")
+    n = 0
+    try:
+        text = SCRIPT.format(repo=core.REPO)
+        open(os.path.join(root, "script.py"), "w").write(SCRIPT_MAIN.format(repo=core.REPO))
+        os.makedirs(os.path.join(root, "pk"))
+        open(os.path.join(root, "pk", "__init__.py"), "w").write("")
+        open(os.path.join(root, "pk", "mod.py"), "w").write(text)
+        open(os.path.join(root, "runpk.py"), "w").write(
+            f"import sys, json\nsys.path.insert(0, {root!r})\nsys.path.insert(0, {core.REPO!r})\nimport dds\ndds.accept_module('pk')\nimport pk.mod as m\n"
+            "dds.set_store(m.Cap())\ndds.eval(m.pipeline)\nprint('SIGS ' + json.dumps(m.Cap.seen, sort_keys=True))\n")
+        cells = text.split("class Cap")[0]
+        ip = ("import sys, json\nsys.path.insert(0, %r)\nfrom IPython.core.interactiveshell import InteractiveShell\nsh = InteractiveShell.instance()\n"
+              "src = %r\ncap = %r\nouts = []\n"
+              "for rnd in range(2):\n"
+              "    r = sh.run_cell(src)\n    assert r.success, r\n    r = sh.run_cell(cap + 'dds.set_store(Cap())\\ndds.eval(pipeline)\\n_sig = dict(Cap.seen)')\n    assert r.success, r\n"
+              "    outs.append(sh.user_ns['_sig'])\n"
+              "print('SIGS ' + json.dumps(outs[0], sort_keys=True))\nprint('SIGS2 ' + json.dumps(outs[1], sort_keys=True))\n") % (core.REPO, cells, "class Cap" + text.split("class Cap")[1])
+        open(os.path.join(root, "runip.py"), "w").write(ip)
+        got = {}
+        for name, script in (("package", "runpk.py"), ("script", "script.py"), ("ipython", "runip.py")):
+            p = subprocess.run([core.PY, os.path.join(root, script)], capture_output=True, text=True, env=env, cwd=root, timeout=300)
+            n += 1
+            for line in p.stdout.splitlines():
+                if line.startswith("SIGS "):
+                    got[name] = json.loads(line[5:])
+                if line.startswith("SIGS2 "):
+                    got[name + "_redefined"] = json.loads(line[6:])
+            if name not in got:
+                probs.append((f"C03|placement|{name}|fails", f"evaluating the pipeline as {name} failed: {(p.stderr or p.stdout)[-300:]}", {"mode": "placement"}))
+        ref = got.get("package")
+        for name, sig in got.items():
+            if ref is not None and sig != ref:
+                probs.append((f"C03|placement|{name}|differs", f"signatures as {name} {sig} differ from the package module's {ref}", {"mode": "placement"}))
+    finally:
+        shutil.rmtree(root, ignore_errors=True)
+    return probs, n
 
 
 def run(tier, seed):
-    items = driver.plan(tier, P)
-    res, outs = driver.run_plan(P, "model_checking", items)
+    res = Result(P, "model_checking")
+    # (A) environments, as parallel real interpreters
+    envs = environments(tier, seed)
+    nsh = 2 if len(envs) <= 8 else 1
+    parts = pool.pmap(_tables_job, [(n, dict(j, shard=[i, nsh])) for n, j in envs for i in range(nsh)], chunk=1)
+    tabs = {}
+    for n, t in parts:
+        tabs.setdefault(n, {}).update(t)
+    base = tabs["base"]
+    nkeys = len(base)
+    for name, t in tabs.items():
+        if name == "base":
+            continue
+        diff = sorted(k for k in set(base) | set(t) if base.get(k) != t.get(k))
+        if diff:
+            k = diff[0]
+            res.violations.append(Violation(P, f"C03|environment|{name.split('=')[0].split('+')[0]}",
+                                            f"environment {name}: {len(diff)} of {nkeys} (program, variant, entry) signature maps differ from the base environment, e.g. {k}: "
+                                            f"{t.get(k)} vs {base.get(k)}", {"mode": "env", "env": name, "tier": tier, "seed": seed}))
+    # (B) histories inside one interpreter
+    items = [it for it in driver.plan("quick", P) if it[2] == "memory" or it[0]["key"].startswith(("var|type=int|access=name", "body|pos=self"))]
+    if tier == "quick":
+        items = [(sp, ents[:2], st, d, o, se) for sp, ents, st, d, o, se in items
+                 if (not sp["key"].startswith("var|") or sp["id"].endswith(("/direct", "/helper2"))) and "ctx=" not in sp["key"].replace("ctx=stmt", "")]
+    hres, outs = driver.run_plan(P, "model_checking", items)
+    res.violations += hres.violations
+    # (C) pinned corpus
+    cprobs, npk, nent = check_corpus()
+    for k, what, case in cprobs:
+        res.violations.append(Violation(P, k, what, case))
+    # (D) placements
+    pprobs, nproc = check_placements()
+    for k, what, case in pprobs:
+        res.violations.append(Violation(P, k, what, case))
+    cov = hres.coverage
+    res.coverage = dict(states=cov["states"] + nkeys * len(envs), transitions=cov["transitions"] + nkeys * len(envs) + nent + nproc,
+                        traces_validated_against_impl=cov["transitions"] + nkeys * len(envs) + nent + nproc,
+                        environments=[n for n, _ in envs], table_rows_per_environment=nkeys, histories=cov["histories"],
+                        pinned_packages=npk, pinned_entries=nent, placement_interpreters=nproc, exhaustive=True,
+                        rule="(A) signature map of every (program, variant, entry) of the family recomputed in real interpreters differing in PYTHONHASHSEED, cwd, "
+                             "package directory, store kind, extra_debug (option and per call) and graph export, compared with the base table; (B) all histories "
+                             "of the C01 plan with the oracle 'signatures are a function of (program, variant, entry)'; (C) pinned corpus of committed sources vs "
+                             "committed signatures; (D) package module vs __main__ script vs IPython cells incl. re-definition",
+                        samples=cov["samples"][:2] + [sorted(base)[0], sorted(base)[-1]])
+    res.assumptions = ["the pinned corpus was produced by this tree after its 'fix:' commits; it is read-only for the check"]
     return res
 
 
 def replay(case):
-    return driver.replay(P, case)
+    m = case.get("mode")
+    if m == "hist":
+        return driver.replay(P, case)
+    if m == "corpus":
+        probs, _, _ = check_corpus(only={case["pkg"]})
+        return [Violation(P, k, what, c) for k, what, c in probs if c["pkg"] == case["pkg"]]
+    if m == "placement":
+        probs, _ = check_placements()
+        return [Violation(P, k, what, c) for k, what, c in probs]
+    if m == "env":
+        envs = dict(environments(case["tier"], case["seed"]))
+        tabs = dict(pool.pmap(_tables_job, [("base", envs["base"]), (case["env"], envs[case["env"]])], chunk=1))
+        if tabs["base"] != tabs[case["env"]]:
+            return [Violation(P, f"C03|environment|{case['env'].split('=')[0].split('+')[0]}", "tables differ", case)]
+        return []
+    raise core.HarnessError(m)
